@@ -129,9 +129,18 @@ def run_mem(case):
                 # serialise read-vs-write on one memory
                 kinds = set(i['op'] for i in issued if i['mem'] == mid and not i.get('settled'))
                 if (op['op'] == 'read' and kinds) or (op['op'] == 'write' and 'read' in kinds):
-                    s.sleep(H)
+                    if case.get('asap'):
+                        # carry on the moment the earlier transfers on this memory have been notified (late duplicates of
+                        # their replies may then still be on their way)
+                        waited = 0.0
+                        while waited < H and len([n for n in notes if n[1] == mid]) < len([i for i in issued if i['mem'] == mid and i['accepted']]):
+                            s.sleep(0.0001)
+                            waited += 0.0001
+                    else:
+                        s.sleep(H)
                     for i in issued:
-                        i['settled'] = True
+                        if not case.get('asap') or i['mem'] == mid:
+                            i['settled'] = True
                 if cf.link is None:
                     break
                 if op['op'] == 'read':
@@ -304,6 +313,10 @@ def mem_case(draw):
     nm = draw(st.integers(1, 3))
     sizes = [draw(st.sampled_from([64, 128, 200, 300, 'huge'])) for _ in range(nm)]
     ops = draw(st.lists(_op, min_size=1, max_size=7))
+    # the same range of the same memory transferred again straight away (a late duplicate of the first transfer then meets the second)
+    for i in range(1, len(ops)):
+        if draw(st.sampled_from([False, False, False, True])):
+            ops[i] = dict(ops[i - 1], seed=ops[i]['seed'], gap=draw(st.sampled_from([0, 0, 0.0005])))
     resend = draw(st.booleans())
     delays = draw(st.one_of(st.just([]), st.lists(st.sampled_from([0.001, 0.001, 0.01, 0.19, 0.21, 0.5, 1.05, 1.3] if resend else [0.001, 0.01, 0.5]),
                                                    min_size=1, max_size=6)))
@@ -315,7 +328,7 @@ def mem_case(draw):
         drop = {'k': draw(st.integers(1, 24)), 'reporter': draw(st.sampled_from(['driver', 'sender']))}
     return {'sizes': sizes, 'ops': ops, 'needs_resending': resend,
             'policy': {'delays': delays, 'dups': dups, 'errors': errors, 'dup_gap': draw(st.sampled_from([0.0001, 0.002, 0.3]))},
-            'drop': drop, 'schedule': draw(_sched)}
+            'drop': drop, 'schedule': draw(_sched), 'asap': draw(st.booleans())}
 
 
 def drop_sweep_cases(tier):
@@ -335,8 +348,142 @@ def drop_sweep_cases(tier):
                        'schedule': {'prefix': [], 'seed': k, 'rate': 0.0}}
 
 
+def late_duplicate_cases(tier):
+    """one range transferred twice in a row; each reply of the first transfer duplicated in turn, the copy arriving at every phase of the second"""
+    for kind in ('read', 'write'):
+        for length in (21, 40, 41, 60):
+            nchunks = -(-length // (20 if kind == 'read' else 25))
+            for j in range(nchunks):
+                for gap in (0.0001, 0.0006, 0.0011, 0.0016, 0.0021, 0.0031, 0.0041):
+                    for addr in (0, 7):
+                        op = {'op': kind, 'mem': 0, 'addr': addr, 'len': length, 'seed': 1, 'flush': False, 'gap': 0}
+                        yield {'sizes': [128], 'ops': [op, dict(op, seed=2), dict(op, seed=3, op='read')], 'needs_resending': False,
+                               'policy': {'delays': [], 'dups': [j], 'errors': [], 'dup_gap': gap}, 'drop': None, 'asap': True,
+                               'schedule': {'prefix': [], 'seed': j, 'rate': 0.0}}
+
+
+# ---------------------------------------------------------------- deck memories (requests made through DeckMemory / DeckMemoryManager)
+def run_deck_api(case):
+    """Thread-free: real Memory + DeckMemoryManager on a pumped fake Crazyflie; device = sparse 32-bit deck memory."""
+    from vlib.memdev import MemSpec, make_memory
+    out = Outcome()
+    spec = MemSpec(0x19, 0xFFFFFFFF, sparse=True)
+    img = bytearray([3])
+    decks = case['decks']
+    for k in range(8):
+        if k < len(decks):
+            dk = decks[k]
+            rec = struct.pack('<BBLLL18s', 0x0F, 0, 0, 0, dk['base'], ('deck%d' % k).encode())
+        else:
+            rec = b''
+        img += rec.ljust(0x20, b'\0')
+    spec.poke(0, bytes(img))
+    cf, dev, mem, ok = make_memory([spec])
+    if not ok or not mem.mems:
+        out.fail('deck:enumeration', 'memories %r' % mem.mems)
+        return out
+    mgr = mem.mems[0]
+    # reply faults: the k-th read/write reply after the query carries an error status
+    count = {'n': None}
+    orig = dev.handle
+
+    def handle(port, channel, data):
+        reps = orig(port, channel, data)
+        if count['n'] is None or port != 4 or channel == 0:
+            return reps
+        res = []
+        for (rp, rc, rd) in reps:
+            j = count['n']
+            count['n'] += 1
+            if j in case['errors']:
+                if channel == 2:
+                    # the device refuses the chunk: it is not stored
+                    mid, addr = struct.unpack('<BI', data[:5])
+                    for x in range(addr, addr + len(data) - 5):
+                        spec.cells.pop(x, None)
+                rd = rd[:5] + bytes([5])
+            res.append((rp, rc, rd))
+        return res
+    dev.handle = handle
+    q = []
+    mgr.query_decks(lambda d: q.append(d), lambda e: q.append(('fail', e)))
+    cf.pump()
+    if len(q) != 1 or not isinstance(q[0], dict) or sorted(q[0]) != list(range(len(decks))):
+        out.fail('deck:query', repr(q)[:200])
+        return out
+    dm = q[0]
+    count['n'] = 0
+    faulted = False
+    desc = 'decks %r ops %r errors %r' % ([hex(d['base']) for d in decks], [(o['op'], o['deck'], o['addr'], o['len'], o['fcb']) for o in case['ops']], case['errors'])
+
+    def do(op, probe=False):
+        nonlocal faulted
+        d = dm[op['deck'] % len(decks)]
+        base = decks[op['deck'] % len(decks)]['base']
+        notes = []
+        n_before = count['n']
+        try:
+            if op['op'] == 'read':
+                d.read(op['addr'], op['len'], lambda a, data: notes.append(('ok', a, bytes(data))),
+                       (lambda a: notes.append(('fail', a))) if op['fcb'] else None)
+            else:
+                data = _data(op['len'], op['seed'])
+                d.write(op['addr'], data, lambda a: notes.append(('ok', a)), lambda a: notes.append(('fail', a)))
+        except Exception as e:  # noqa
+            out.fail('deck:request-refused%s' % (':after-failure' if faulted else ''), '%s: %s %r raised %r' % (desc, 'probe' if probe else 'op', op, e))
+            return
+        cf.pump()
+        hit = any(n_before <= j < count['n'] for j in case['errors'])
+        faulted = faulted or hit
+        kinds = [n[0] for n in notes]
+        if op['len'] == 0 and op['op'] == 'write':
+            return
+        if hit:
+            want = ['fail'] if (op['fcb'] or op['op'] == 'write') else []
+            if kinds != want:
+                out.fail('deck:%s:notification-after-error' % op['op'], '%s: %r notified %r, expected %r' % (desc, op, kinds, want))
+        else:
+            if kinds != ['ok']:
+                out.fail('deck:%s:notification' % op['op'], '%s: %r notified %r' % (desc, op, kinds))
+            elif op['op'] == 'read':
+                want = spec.peek(base + op['addr'], op['len'])
+                if notes[0][2] != want or notes[0][1] != op['addr']:
+                    out.fail('deck:read-data', '%s: %r returned (%r, %s), device holds %s' % (desc, op, notes[0][1], notes[0][2].hex(), want.hex()))
+            else:
+                if spec.peek(base + op['addr'], op['len']) != data:
+                    out.fail('deck:write-effect', '%s: %r: device holds %s' % (desc, op, spec.peek(base + op['addr'], op['len']).hex()))
+    for op in case['ops']:
+        do(op)
+    # afterwards every deck still serves reads and writes
+    case_errors = case['errors']
+    case['errors'] = []
+    for k in range(len(decks)):
+        do({'op': 'read', 'deck': k, 'addr': 3, 'len': 30, 'fcb': True, 'seed': 0}, probe=True)
+        do({'op': 'write', 'deck': k, 'addr': 3, 'len': 30, 'fcb': True, 'seed': 9}, probe=True)
+    case['errors'] = case_errors
+    multi = any((o['op'] == 'read' and o['len'] > 20) or (o['op'] == 'write' and o['len'] > 25) for o in case['ops'])
+    out.nontrivial = faulted or (multi and len(decks) >= 2)
+    out.feat('deck-api', 'deck-fault' if faulted else 'deck-no-fault', 'decks-%d' % len(decks),
+             'read-without-failure-callback' if any(o['op'] == 'read' and not o['fcb'] for o in case['ops']) else 'all-callbacks-given')
+    return out
+
+
+@st.composite
+def deck_api_case(draw):
+    n = draw(st.integers(1, 4))
+    bases = draw(st.permutations([0x10000000, 0x20000000, 0x30000000, 0x40000000]))[:n]
+    ops = draw(st.lists(st.fixed_dictionaries({'op': st.sampled_from(['read', 'write']), 'deck': st.integers(0, 3),
+                                               'addr': st.one_of(st.integers(0, 300), st.sampled_from([0, 0x0FFFFF00])),
+                                               'len': st.one_of(st.sampled_from([1, 20, 21, 25, 26, 40, 41, 50, 51, 75]), st.integers(1, 100)),
+                                               'fcb': st.booleans(), 'seed': st.integers(0, 50)}), min_size=1, max_size=6))
+    errors = draw(st.one_of(st.just([]), st.lists(st.integers(0, 10), min_size=1, max_size=3, unique=True)))
+    return {'decks': [{'base': b} for b in bases], 'ops': ops, 'errors': errors}
+
+
 def subchecks(tier):
     return [
         Sub('histories', run_mem, strategy=mem_case(), examples={'quick': 160, 'thorough': 8000}),
+        Sub('late-duplicates', run_mem, cases=late_duplicate_cases, distinct_by_construction=True),
         Sub('drop-sweep', run_mem, cases=drop_sweep_cases, distinct_by_construction=True),
+        Sub('deck-api', run_deck_api, strategy=deck_api_case(), examples={'quick': 600, 'thorough': 30000}),
     ]
